@@ -219,8 +219,8 @@ PLAN_C16 = {
     ],
     "sim": dict(what="random pipelines around natural_join", fams=JOINF, num=(1500, 12000), rows=3, steps=3, **SIMT),
     "backends": ("pandas", "sqlite", "pg", "polars"),
-    "nontrivial": lambda c: has_op(c, ("join",)) and all(len(t["rows"]) >= 1 for t in c["inp"].values()),
-    "relevant_ops": ("join",),
+    "nontrivial": lambda c: has_op(c, ("join", "joinc")) and all(len(t["rows"]) >= 1 for t in c["inp"].values()),
+    "relevant_ops": ("join", "joinc"),
 }
 
 WINF = ["wextend", "extend", "select_rows", "cols", "order"]
